@@ -197,6 +197,8 @@ func init() {
 						if ok, _ := served(k, h.Name+"="+h.Value); ok && v.Status == 302 {
 							c.violation("C11", fmt.Sprintf("after a successful sign-out through one instance, a cookie the browser held before is still authenticated by instance %d of the same deployment (which had served that session before): something of the session lives in the process, not in the shared store", k),
 								in(map[string]interface{}{"signout_status": v.Status}))
+							c.violation("C01", fmt.Sprintf("a session that was signed out through one instance (its stored entry is gone) is still served by instance %d of the same deployment: the credential is no longer valid", k),
+								in(map[string]interface{}{"signout_status": v.Status}))
 						}
 					}
 				}
